@@ -152,6 +152,12 @@ class HW:
         self.ts.next[key] = v
         return v
 
+    def ghost_input(self, name, width=1):
+        """Free ghost input (universally quantified every cycle; 0 in co-simulation)."""
+        v = z3.BitVec(f"ghostin_{name}{self.ts.suffix}", width)
+        self.ts.inputs[f"ghostin_{name}"] = v
+        return v
+
     def set_ghost_next(self, var, term):
         for k, v in self.ts.state.items():
             if v.eq(var):
